@@ -2,7 +2,7 @@
 //! inline and on a spawned runtime, and `kill` on a spawned one.  The transport is idle (every
 //! receive fails after a short sleep), so only the stop request can end the run.
 use portus::ipc::{BackendBuilder, Ipc};
-use portus::{CongAlg, Datapath, DatapathInfo, Error, Flow, Report, Result, RunBuilder};
+use portus::{CongAlg, Datapath, DatapathInfo, DatapathTrait, Error, Flow, Report, Result, RunBuilder};
 use std::collections::HashMap;
 use std::io::Write;
 use std::sync::atomic::{AtomicBool, AtomicUsize, Ordering};
@@ -33,7 +33,8 @@ impl<I: Ipc> CongAlg<I> for NopAlg {
 
 fn finish(rx: mpsc::Receiver<std::result::Result<(), String>>, closed: &Arc<AtomicUsize>, h: &Arc<AtomicBool>) -> String {
     match rx.recv_timeout(Duration::from_secs(4)) {
-        Ok(Ok(())) => { std::thread::sleep(Duration::from_millis(20)); format!("returned-ok closed={} strong={}", closed.load(Ordering::SeqCst), Arc::strong_count(h)) }
+        // (the request is the caller's: the handle still reads "stop" after the run has returned)
+        Ok(Ok(())) => { std::thread::sleep(Duration::from_millis(20)); format!("returned-ok closed={} strong={} request-kept={}", closed.load(Ordering::SeqCst), Arc::strong_count(h), !h.load(Ordering::SeqCst)) }
         Ok(Err(e)) => format!("returned-error {}", e.replace(' ', "-")),
         Err(_) => "did-not-return-within-4s".to_string(),
     }
@@ -78,6 +79,94 @@ pub fn run_apiorder(out: &mut dyn Write) {
         };
         writeln!(out, "apiorder\t{}\t{}", case, line).unwrap();
     }
+    // one stop handle given to two runtimes: one request ends both
+    {
+        let closed = Arc::new(AtomicUsize::new(0));
+        let h = Arc::new(AtomicBool::new(true));
+        let (tx, rx) = mpsc::channel();
+        let res = crate::util::catch(|| {
+            for _ in 0..2 {
+                let (h2, c2, tx2) = (h.clone(), closed.clone(), tx.clone());
+                std::thread::spawn(move || { let rb = RunBuilder::new(BackendBuilder { sock: IdleIpc { closed: c2 } }).default_alg(NopAlg).with_stop_handle(h2);
+                    let _ = tx2.send(rb.run().map_err(|e| e.0)); });
+            }
+        });
+        let line = match res {
+            None => "PANIC".to_string(),
+            Some(()) => {
+                std::thread::sleep(Duration::from_millis(40)); h.store(false, Ordering::SeqCst);
+                let a = rx.recv_timeout(Duration::from_secs(4)); let b = rx.recv_timeout(Duration::from_secs(4));
+                match (a, b) {
+                    (Ok(Ok(())), Ok(Ok(()))) => { std::thread::sleep(Duration::from_millis(20)); format!("returned-ok closed={} strong={} request-kept={}", closed.load(Ordering::SeqCst), Arc::strong_count(&h), !h.load(Ordering::SeqCst)) }
+                    (Ok(Err(e)), _) | (_, Ok(Err(e))) => format!("returned-error {}", e.replace(' ', "-")),
+                    _ => { h.store(false, Ordering::SeqCst); "one-of-two-runtimes-did-not-return-within-4s".to_string() }
+                }
+            }
+        };
+        writeln!(out, "apiorder\tshared-handle two runtimes\t{}", line).unwrap();
+    }
+    // a flow's handle kept beyond the run: once the runtime has returned, a command through it is an error,
+    // not a success that transmitted nothing
+    {
+        let sent = Arc::new(AtomicUsize::new(0));
+        let closed = Arc::new(AtomicUsize::new(0));
+        let created = Arc::new(AtomicBool::new(false));
+        let h = Arc::new(AtomicBool::new(true));
+        let cr = portus::serialize::serialize(&portus::serialize::create::Msg { sid: 1, init_cwnd: 14480, mss: 1448, src_ip: 1, src_port: 2, dst_ip: 3, dst_port: 4, cong_alg: None }).unwrap();
+        let (h2, sent2, closed2, created2) = (h.clone(), sent.clone(), closed.clone(), created.clone());
+        let (tx, rx) = mpsc::channel();
+        std::thread::spawn(move || {
+            let slot: std::rc::Rc<std::cell::RefCell<Option<Datapath<QueueIpc>>>> = std::rc::Rc::new(std::cell::RefCell::new(None));
+            let ipc = QueueIpc { q: std::sync::Mutex::new(vec![cr]), sent: sent2.clone(), closed: closed2 };
+            let slot2 = slot.clone();
+            let res = crate::util::catch(move || { let rb = RunBuilder::new(BackendBuilder { sock: ipc }).default_alg(KeepAlg(slot2, created2)).with_stop_handle(h2); rb.run().map_err(|e| e.0) });
+            let line = match res {
+                Some(Ok(())) => {
+                    let before = sent2.load(Ordering::SeqCst);
+                    let dp = slot.borrow_mut().take();
+                    match dp {
+                        None => "the-flow-was-never-created".to_string(),
+                        Some(mut dp) => match crate::util::catch(move || dp.set_program("p", None).is_ok()) {
+                            None => "PANIC".to_string(),
+                            Some(false) => "error".to_string(),
+                            Some(true) => format!("reported-success transmitted={}", sent2.load(Ordering::SeqCst) - before),
+                        }
+                    }
+                }
+                Some(Err(e)) => format!("returned-error {}", e.replace(' ', "-")),
+                None => "PANIC".to_string(),
+            };
+            let _ = tx.send(line);
+        });
+        let t0 = std::time::Instant::now();
+        while !created.load(Ordering::SeqCst) && t0.elapsed() < Duration::from_secs(3) { std::thread::sleep(Duration::from_millis(2)); }
+        h.store(false, Ordering::SeqCst);
+        let line = rx.recv_timeout(Duration::from_secs(4)).unwrap_or_else(|_| "did-not-return-within-4s".to_string());
+        writeln!(out, "apiorder\tlate-handle set_program after the run returned\t{}", line).unwrap();
+    }
+}
+
+struct QueueIpc { q: std::sync::Mutex<Vec<Vec<u8>>>, sent: Arc<AtomicUsize>, closed: Arc<AtomicUsize> }
+impl Ipc for QueueIpc {
+    type Addr = u8;
+    fn name() -> String { "queue".into() }
+    fn send(&self, _msg: &[u8], _to: &u8) -> Result<()> { self.sent.fetch_add(1, Ordering::SeqCst); Ok(()) }
+    fn recv(&self, msg: &mut [u8]) -> Result<(usize, u8)> {
+        let next = { let mut q = self.q.lock().unwrap(); if q.is_empty() { None } else { Some(q.remove(0)) } };
+        match next { Some(d) => { msg[..d.len()].copy_from_slice(&d); Ok((d.len(), 1)) } None => { std::thread::sleep(Duration::from_millis(2)); Err(Error("nothing to read".into())) } }
+    }
+    fn close(&mut self) -> Result<()> { self.closed.fetch_add(1, Ordering::SeqCst); Ok(()) }
+}
+struct KeepAlg(std::rc::Rc<std::cell::RefCell<Option<Datapath<QueueIpc>>>>, Arc<AtomicBool>);
+impl CongAlg<QueueIpc> for KeepAlg {
+    type Flow = NopFlow;
+    fn name() -> &'static str { "keep" }
+    fn datapath_programs(&self) -> HashMap<&'static str, String> {
+        let mut h = HashMap::new();
+        h.insert("p", "(def (Report (x 0))) (when true (report))".to_string());
+        h
+    }
+    fn new_flow(&self, c: Datapath<QueueIpc>, _i: DatapathInfo) -> NopFlow { *self.0.borrow_mut() = Some(c); self.1.store(true, Ordering::SeqCst); NopFlow }
 }
 
 /// C18/C16/C19 on the real unix-datagram transport: every constructor gives a socket on which an idle
